@@ -57,6 +57,14 @@ AF6 = int(socket.AF_INET6)
 # ------------------------------------------------------------------------------------------------
 # fakes
 # ------------------------------------------------------------------------------------------------
+class ScriptedInterrupt(BaseException):
+    """a non-library BaseException raised by the socket in mid-exchange"""
+
+
+XEXC = {"OSError": ConnectionResetError, "ValueError": ValueError, "Interrupt": ScriptedInterrupt, "FormError": dns.exception.FormError,
+        "KeyError": KeyError}
+
+
 class ScriptExhausted(BaseException):
     """the script has nothing more and there is no deadline: the real call would block for ever"""
 
@@ -161,12 +169,18 @@ class UdpSock:
     def send(self, data):
         return self.sendto(data, None, True)
 
+    def close(self):
+        self.closed = True
+
     def recvfrom(self, size):
         self._pending_dir = 1
         if not self.events:
             self._pending = None
+            self.starved = True
             raise BlockingIOError()
         ev = self.events.pop(0)
+        if ev["t"] == "X":
+            raise XEXC[ev["exc"]]("scripted socket failure")
         if ev["t"] == "W":
             self._pending = ev["dt"]
             raise BlockingIOError()
@@ -199,11 +213,14 @@ class AsyncUdpSock:
     async def recvfrom(self, size, timeout):
         while True:
             if not self.events:
+                self.starved = True
                 if timeout is None:
                     raise ScriptExhausted()
                 self.clock.now += timeout
                 raise dns.exception.Timeout
             ev = self.events.pop(0)
+            if ev["t"] == "X":
+                raise XEXC[ev["exc"]]("scripted socket failure")
             if ev["t"] == "W":
                 timeout = self._wait(ev["dt"], timeout)
                 continue
@@ -215,7 +232,7 @@ class AsyncUdpSock:
         return ("10.0.0.1", 53)
 
     async def close(self):
-        pass
+        self.closed = True
 
 
 class TcpSock:
@@ -242,12 +259,19 @@ class TcpSock:
         self.sent += bytes(data[:k])
         return k
 
+    def close(self):
+        self.closed = True
+
     def recv(self, count):
         self._pending_dir = 1
         if not self.revents:
             self._pending = None
+            self.starved = True
             raise BlockingIOError()
         ev = self.revents[0]
+        if ev[0] == "X":
+            self.revents.pop(0)
+            raise XEXC[ev[1]]("scripted socket failure")
         if ev[0] == "W":
             self.revents.pop(0)
             self._pending = ev[1]
@@ -294,11 +318,15 @@ class AsyncTcpSock:
     async def recv(self, count, timeout):
         while True:
             if not self.revents:
+                self.starved = True
                 if timeout is None:
                     raise ScriptExhausted()
                 self.clock.now += timeout
                 raise dns.exception.Timeout
             ev = self.revents[0]
+            if ev[0] == "X":
+                self.revents.pop(0)
+                raise XEXC[ev[1]]("scripted socket failure")
             if ev[0] == "W":
                 self.revents.pop(0)
                 timeout = self._wait(ev[1], timeout)
@@ -317,7 +345,7 @@ class AsyncTcpSock:
         return ("10.0.0.1", 53)
 
     async def close(self):
-        pass
+        self.closed = True
 
     def stream_rest(self):
         return b"".join(bytes.fromhex(e[1]) for e in self.revents if e[0] == "D")
@@ -376,6 +404,11 @@ def ep(name, style, *values):
         kw = {n: v for n, v, d in zip(names, values[npos:], defaults) if not (type(v) is type(d) and v == d)}
         r = f(*values[:npos], **kw)
     return run_coro(r) if mod == "asyncquery" else r
+
+
+def fmt_t(x):
+    """virtual times are whole ticks, whether the caller passed int or float timeouts"""
+    return int(x) if isinstance(x, float) and x == int(x) else x
 
 
 def family_of(e: BaseException) -> str:
@@ -772,10 +805,12 @@ def eval_udp(ctx: Ctx, c: dict):
         except Exception as e:
             out = ("err", family_of(e))
     n = sock.delivered
+    if getattr(sock, "closed", False):
+        ctx.fail(f"C18/{api}/supplied-socket-closed", "the caller's socket was closed by the exchange", rep)
     dgs = [e for e in events if e["t"] == "D"]
     if out[0] == "ok":
         r = out[1]
-        impl = f"ok idx={n - 1} id={r.id} flags={int(r.flags)} src={p_addr(sock.last_src)} t={out[2]}"
+        impl = f"ok idx={n - 1} id={r.id} flags={int(r.flags)} src={p_addr(sock.last_src)} t={fmt_t(out[2])}"
     else:
         impl = f"err {out[1]} idx={n}"
     # correspondence
@@ -1014,6 +1049,7 @@ def eval_stream(ctx: Ctx, c: dict):
     rev = c.get("revents", [])
     is_async = k in ("arecvtcp", "atcp", "areadexactly", "asendtcp")
     style = c.get("style", "pos")
+    tmo = float(c["timeout"]) if (c.get("ftime") and c["timeout"] is not None) else c["timeout"]
     sock = (AsyncTcpSock if is_async else TcpSock)(clock, sev, rev)
     frames = c.get("frames", {})  # hex frame -> datagram description
     sums = {h: list(summarise(d)) if d.get("raw") is None else list(derive_summary(bytes.fromhex(h))) for h, d in frames.items()}
@@ -1040,11 +1076,11 @@ def eval_stream(ctx: Ctx, c: dict):
                 out = ("ok", ep("arecvtcp", style, sock, exp, c["one"], None, b"", c["it"], c.get("ie", False)))
             elif k == "tcp":
                 q = build_query(c["q"])
-                r = ep("tcp", style, q, "10.0.0.1", c["timeout"], 53, None, 0, c["one"], c["it"], sock)
+                r = ep("tcp", style, q, "10.0.0.1", tmo, 53, None, 0, c["one"], c["it"], sock)
                 out = ("ok", (r, c["now"] + r.time))
             elif k == "atcp":
                 q = build_query(c["q"])
-                r = ep("atcp", style, q, "10.0.0.1", c["timeout"], 53, None, 0, c["one"], c["it"], sock, None)
+                r = ep("atcp", style, q, "10.0.0.1", tmo, 53, None, 0, c["one"], c["it"], sock, None)
                 out = ("ok", (r, c["now"] + r.time))
             else:
                 raise ValueError(k)
@@ -1054,6 +1090,8 @@ def eval_stream(ctx: Ctx, c: dict):
             out = ("err", family_of(e))
     fam = out[1] if out[0] == "err" else "ok"
     ctx.count(f"stream.{k}.{fam}")
+    if getattr(sock, "closed", False):
+        ctx.fail(f"C18/{k}/supplied-socket-closed", "the caller's socket was closed by the exchange", rep)
     if fam.startswith("FOREIGN"):
         ctx.fail(f"C18/{k}/foreign-exception:{fam[8:]}", f"{k} raised {fam}", rep)
     revs = " ".join(p_rev(e) for e in rev)
@@ -1100,6 +1138,31 @@ def eval_stream(ctx: Ctx, c: dict):
             impl = f"err {fam}"
         ctx.corr(f"c18.{k} {p_opt(c['timeout'])} {c['now']} {int(c['it'])}{extra} {ptbl} / {revs}".replace("  ", " ").rstrip(), impl, c)
         oracle_frame(ctx, k, c, rep, out, fam, buf, why, sums, None, sock)
+        if c.get("again") and fam not in ("Timeout", "Exhausted") and not fam.startswith("FOREIGN"):
+            # the same socket used for the next message of the connection (after a success or an error):
+            # the second call must behave as a first call on what the first one left unread
+            left = [list(e) for e in sock.revents]
+            now2 = clock.now
+            exp2 = None if c["timeout"] is None else now2 + c["timeout"]
+            with patched(clock):
+                try:
+                    out2 = ("ok", ep(k, style, sock, exp2, c["one"], None, b"", c["it"], *((c.get("ie", False),) if k == "arecvtcp" else ())))
+                except ScriptExhausted as e:
+                    out2 = ("err", family_of(e))
+                except Exception as e:
+                    out2 = ("err", family_of(e))
+            fam2 = out2[1] if out2[0] == "err" else "ok"
+            ctx.count(f"stream.{k}.again.{fam2}")
+            if out2[0] == "ok":
+                m2, t2 = out2[1]
+                impl2 = f"ok id={m2.id} flags={int(m2.flags)} frame={hx(bytes(m2.wire))} rest={hx(sock.stream_rest())} t={t2}"
+            else:
+                impl2 = f"err {fam2}"
+            revs2 = " ".join(p_rev(e) for e in left)
+            ctx.corr(f"c18.{k} {p_opt(c['timeout'])} {now2} {int(c['it'])}{extra} {ptbl} / {revs2}".replace("  ", " ").rstrip(), impl2, c)
+            buf2, why2 = ref_stream(left, now2, exp2, frame_need)
+            c2 = dict(c, revents=left, now=now2)
+            oracle_frame(ctx, k, c2, {"kind": k, "case": c, "note": "second call on the same socket"}, out2, fam2, buf2, why2, sums, None, sock)
         return
     # tcp / atcp
     qd = c["q"]
@@ -1126,7 +1189,7 @@ def eval_stream(ctx: Ctx, c: dict):
         buf, why = b"", wwhy
     if out[0] == "ok":
         r, t = out[1]
-        impl = f"sent={hx(sock.sent)} ok id={r.id} flags={int(r.flags)} frame={hx(bytes(r.wire))} t={t}"
+        impl = f"sent={hx(sock.sent)} ok id={r.id} flags={int(r.flags)} frame={hx(bytes(r.wire))} t={fmt_t(t)}"
     else:
         impl = f"sent={hx(sock.sent)} err {fam}"
     sm = blocks if is_async else " ".join(p_sev(e) for e in sev_model)
@@ -1221,6 +1284,12 @@ def eval_small(ctx: Ctx, c: dict):
             except Exception as e:
                 impl2 = "err " + family_of(e)
             ctx.corr(f"c18.addreq {af} {p_addr(src)} {p_addr(dest)}", impl2, c)
+            try:
+                impl2r = "ok " + ("1" if dns.query._addresses_equal(af, addr_tuple(dest), addr_tuple(src)) else "0")
+            except Exception as e:
+                impl2r = "err " + family_of(e)
+            if impl2r != impl2:
+                ctx.fail("C18/_addresses_equal/not-symmetric", f"{src} vs {dest}: {impl2}, the other way round: {impl2r}", rep)
             try:
                 impl3 = "ok " + ("1" if dns.inet.is_multicast(dest["host"]) else "0")
             except Exception as e:
@@ -1409,8 +1478,80 @@ def eval_sendudp(ctx: Ctx, c: dict):
             ctx.fail(f"C18/{k}/raised/{out[1]}", f"send_udp raised {out[1]} (deadline reached: {tripped})", rep)
 
 
+def run_x(c, cut):
+    """run the exchange of case c on the implementation (script cut before the failure if `cut`); -> (outcome, starved, closed)"""
+    k = c["kind"]
+    clock = Clock(c["now"])
+    exp = None if c["timeout"] is None else c["now"] + c["timeout"]
+    style = c.get("style", "pos")
+    if k == "udp":
+        api = c["api"]
+        evs = [ev_complete(dict(e)) for e in c["events"]]
+        if cut:
+            evs = evs[: next(i for i, e in enumerate(evs) if e["t"] == "X")]
+        sock = (AsyncUdpSock if api.startswith("a") else UdpSock)(clock, c["af"], evs, c.get("send_blocks", []))
+        q = build_query(c["q"])
+        o = c["opts"]
+        where = c["where"]
+        dest = where if api in ("udp", "audp") else c.get("dest")
+        dt = None if dest is None else addr_tuple(dest)
+
+        def go():
+            if api in ("udp", "audp"):
+                extra = (sock, o["ie"]) if api == "udp" else (sock, None, o["ie"])
+                arg = where["host"] + (f"%{where['rest'][2]}" if len(where["rest"]) == 3 and where["rest"][2] else "")
+                r = ep(api, style, q, arg, c["timeout"], where["rest"][0], None, 0, o["iu"], o["one"], o["it"], o["rt"], *extra)
+                return r.id, int(r.flags)
+            t = ep(api, style, sock, dt, exp, o["iu"], o["one"], None, b"", o["it"], o["rt"], o["ie"], q if c.get("pass_query", True) else None)
+            return t[0].id, int(t[0].flags)
+    else:
+        rev = [list(e) for e in c["revents"]]
+        if cut:
+            rev = rev[: next(i for i, e in enumerate(rev) if e[0] == "X")]
+        sock = (AsyncTcpSock if k.startswith("a") else TcpSock)(clock, c.get("sevents", []), rev)
+
+        def go():
+            if k in ("recvtcp", "arecvtcp"):
+                extra = (c.get("ie", False),) if k == "arecvtcp" else ()
+                m, _t = ep(k, style, sock, exp, c["one"], None, b"", c["it"], *extra)
+            else:
+                extra = (None,) if k == "atcp" else ()
+                m = ep(k, style, build_query(c["q"]), "10.0.0.1", c["timeout"], 53, None, 0, c["one"], c["it"], sock, *extra)
+            return m.id, int(m.flags)
+    with patched(clock):
+        try:
+            out = ("ok",) + go()
+        except BaseException as e:
+            out = ("err", family_of(e))
+    n = getattr(sock, "delivered", None)
+    return out + (n,), bool(getattr(sock, "starved", False)), bool(getattr(sock, "closed", False))
+
+
+def eval_x(ctx: Ctx, c: dict):
+    """the socket itself fails in mid-exchange (OSError, a foreign exception, a BaseException): that failure must surface unchanged —
+    not swallowed by ignore_errors, not turned into a timeout, nothing returned — and everything before it must go as without it"""
+    k = c["kind"] if c["kind"] != "udp" else c["api"]
+    rep = {"kind": c["kind"], "case": c}
+    evs = c["events"] if c["kind"] == "udp" else c["revents"]
+    x = next(e for e in evs if (e["t"] if isinstance(e, dict) else e[0]) == "X")
+    name = x["exc"] if isinstance(x, dict) else x[1]
+    want = family_of(XEXC[name]("x"))
+    a, a_starved, _ = run_x(c, True)
+    b, _, closed = run_x(c, False)
+    ctx.count(f"xfail.{k}.{b[1] if b[0] == 'err' else 'ok'}")
+    if closed:
+        ctx.fail(f"C18/{k}/supplied-socket-closed", "the caller's socket was closed by the exchange", rep)
+    if a_starved:
+        if b[0] != "err" or b[1] != want:
+            ctx.fail(f"C18/{k}/socket-failure-not-propagated/{name}", f"the socket raised {want} where the exchange was waiting; outcome {b}", rep)
+    elif a != b:
+        ctx.fail(f"C18/{k}/socket-failure-changed-earlier-outcome", f"without the later failure: {a}; with it: {b}", rep)
+
+
 def eval_case(ctx: Ctx, c: dict):
     k = c["kind"]
+    if c.get("xfail"):
+        return eval_x(ctx, c)
     if k in ("sendudp", "asendudp"):
         eval_sendudp(ctx, c)
     elif k in ("fallback", "afallback"):
@@ -1704,6 +1845,8 @@ def gen_udp_case(rng, counter, api=None):
         c["dest"] = None if r < 2 else (gen_bad_addr(rng, fam, dest["rest"]) if r == 2 else dest)
     if rng.chance(1, 12):
         c["now"], c["timeout"] = 0, 0  # the deadline is the falsy value 0
+    c["style"] = rng.choice(["pos", "kw"])
+    c["ftime"] = rng.chance(1, 5)
     events = []
     idx = 0
     for _ in range(rng.choice([0, 1, 1, 2, 2, 3, 4, 6])):
@@ -1806,7 +1949,8 @@ def gen_stream_case(rng, kind=None):
     if kind is None:
         kind = rng.choice(["netread"] * 3 + ["netwrite"] * 2 + ["sendtcp"] + ["recvtcp"] * 3 + ["tcp"] * 5 + ["arecvtcp"] * 2 + ["atcp"] * 3
                           + ["areadexactly"] * 2 + ["asendtcp"])
-    c = {"kind": kind, "timeout": None if rng.chance(1, 2) else rng.range(0, 14), "now": rng.choice([0, 7, 1000000])}
+    c = {"kind": kind, "timeout": None if rng.chance(1, 2) else rng.range(0, 14), "now": rng.choice([0, 7, 1000000]),
+         "style": rng.choice(["pos", "kw"]), "ftime": rng.chance(1, 5)}
     if rng.chance(1, 12):
         c["now"], c["timeout"] = 0, 0  # the deadline is the falsy value 0
     if kind in ("netread", "areadexactly"):
@@ -1846,6 +1990,12 @@ def gen_stream_case(rng, kind=None):
     c["one"] = rng.chance(1, 2)
     c["it"] = rng.chance(1, 3)
     c["frames"] = {frame.hex(): d}
+    if kind in ("recvtcp", "arecvtcp") and rng.chance(1, 3):
+        # a second message on the same connection, read by a second call on the same socket
+        f2, d2 = gen_frame(rng, qd)
+        c["frames"][f2.hex()] = d2
+        stream = len(frame).to_bytes(2, "big") + frame + len(f2).to_bytes(2, "big") + f2
+        c["again"] = True
     c["revents"] = gen_revents(rng, stream)
     if kind == "arecvtcp":
         c["ie"] = rng.chance(1, 2)
@@ -1913,7 +2063,7 @@ def gen_fallback_case(rng, counter):
         frame = build_dgram(d)
     stream = len(frame).to_bytes(2, "big") + frame + (rng.bytes(rng.below(4)) if rng.chance(1, 4) else b"")
     total = 2 + len(build_query(qd).to_wire())
-    c = {"kind": kind, "q": qd, "where": u["where"], "af": u["af"], "opts": u["opts"], "timeout": u["timeout"], "now": u["now"],
+    c = {"kind": kind, "style": u["style"], "q": qd, "where": u["where"], "af": u["af"], "opts": u["opts"], "timeout": u["timeout"], "now": u["now"],
          "send_blocks": u["send_blocks"], "events": events, "frames": {frame.hex(): d}, "revents": gen_revents(rng, stream),
          "sevents": (gen_sevents(rng, total) if kind == "fallback" else ([["W", rng.below(6)]] if rng.chance(1, 4) else []))}
     return c
@@ -1921,7 +2071,7 @@ def gen_fallback_case(rng, counter):
 
 def gen_sendudp_case(rng):
     kind = "asendudp" if rng.chance(1, 3) else "sendudp"
-    c = {"kind": kind, "msg": gen_qdesc(rng), "as_message": rng.chance(1, 2), "timeout": None if rng.chance(1, 2) else rng.range(0, 8),
+    c = {"kind": kind, "style": rng.choice(["pos", "kw"]), "msg": gen_qdesc(rng), "as_message": rng.chance(1, 2), "timeout": None if rng.chance(1, 2) else rng.range(0, 8),
          "now": rng.choice([0, 100]), "send_blocks": [] if rng.chance(1, 2) else [rng.below(6) for _ in range(rng.range(1, 2))],
          "dest": None if (kind == "sendudp" and rng.chance(1, 4)) else gen_addr(rng, 4)}
     return c
@@ -1958,6 +2108,39 @@ def big_frame_cases(rng, n):
     return out
 
 
+def gen_x_case(rng, counter):
+    """an exchange script into which a socket failure is spliced"""
+    name = rng.choice(["OSError", "OSError", "ValueError", "Interrupt", "FormError", "KeyError"])
+    if rng.chance(1, 2):
+        c = gen_udp_case(rng, counter)
+        evs = c["events"]
+        evs.insert(rng.below(len(evs) + 1), {"t": "X", "exc": name})
+    else:
+        c = gen_stream_case(rng, rng.choice(["recvtcp", "tcp", "arecvtcp", "atcp"]))
+        c["revents"].insert(rng.below(len(c["revents"]) + 1), ["X", name])
+    c["xfail"] = True
+    return c
+
+
+def max_dgram_cases(rng):
+    """a genuine reply of exactly 65535 octets (the largest UDP payload `recvfrom` is asked for), sync and async"""
+    out = []
+    for api in ("udp", "audp", "recv"):
+        qd = gen_qdesc(rng)
+        qd["flags"] &= ~0x7800
+        qd["questions"] = [[["61", ""], 1, 1]]
+        dest = gen_addr(rng, 4, "0a000001", 53)
+        d = {"id": qd["id"], "flags": 0x8000 | (qd["flags"] & 0x0100) | 0x0080, "questions": qd["questions"], "marker": 0}
+        d["pad"] = 65535 - len(build_dgram(d)) - len(pad_rr(0))
+        assert len(build_dgram(d)) == 65535
+        c = {"kind": "udp", "api": api, "q": qd, "where": dest, "af": AF4, "timeout": None, "now": 0, "send_blocks": [], "style": "kw",
+             "opts": {"iu": False, "one": False, "it": False, "rt": False, "ie": False}, "events": [{"t": "D", "src": dict(dest), "d": d}]}
+        if api == "recv":
+            c["dest"] = dest
+        out.append(c)
+    return out
+
+
 def gen_pton_case(rng):
     fam = 4 if rng.chance(1, 3) else 6
     af = AF4 if fam == 4 else AF6
@@ -1970,9 +2153,15 @@ def gen_pton_case(rng):
         c = {"kind": "pton", "af": af, "text": t, "bin": None, "fam": None, "invalid": True}
         if t in ("10.0.0.1", "::1"):
             c["invalid"] = fam == (6 if t == "10.0.0.1" else 4)
+    elif r == 8:
+        # a valid text with one character a careless validator lets through at its edge (regex `$`, isdigit, strip)
+        a = gen_addr(rng, fam, form=(rng.choice([0, 3, 4, 4, 6]) if fam == 6 else None))
+        ch = rng.choice(["\n", "\n", "\r", "\t", " ", "\x00", "\x7f", "\x0b", "\r\n", "\n\n"])
+        t = a["host"] + ch if rng.chance(3, 4) else ch + a["host"]
+        c = {"kind": "pton", "af": af, "text": t, "bin": None, "fam": None, "edge": True}
     else:
         # soup over the characters the parsers look at
-        atoms = ["0", "1", "9", "a", "f", "F", "g", ":", "::", ".", "%", "255", "256", "00", "ffff", "12345", "1.2.3.4", " "]
+        atoms = ["0", "1", "9", "a", "f", "F", "g", ":", "::", ".", "%", "255", "256", "00", "ffff", "12345", "1.2.3.4", " ", "\n"]
         t = "".join(rng.choice(atoms) for _ in range(rng.range(0, 9)))
         c = {"kind": "pton", "af": af, "text": t, "bin": None, "fam": None}
     if rng.chance(1, 15):
@@ -2043,6 +2232,10 @@ def generate(ctx: Ctx, scale: int, rng, counter0=0):
         c = gen_udp_case(rng, counter0 + i)
         ctx.case(("udp", json.dumps(c, sort_keys=True)), sample=c)
         eval_case(ctx, c)
+    for i in range(n(1500)):
+        c = gen_x_case(rng, counter0 + i)
+        ctx.case(("x", json.dumps(c, sort_keys=True)), sample=None)
+        eval_case(ctx, c)
     for i in range(n(600)):
         c = gen_sendudp_case(rng)
         ctx.case((c["kind"], json.dumps(c, sort_keys=True)), sample=c)
@@ -2065,6 +2258,10 @@ def run(ctx: Ctx):
         eval_case(ctx, c)
         ctx.count("corpus")
     thorough = ctx.tier == "thorough"
+    for c in max_dgram_cases(ctx.rng):
+        ctx.case(("udp", "max-dgram", c["api"]), sample=None)
+        eval_case(ctx, c)
+        ctx.count("maxdgram")
     for c in big_frame_cases(ctx.rng, 35 if thorough else 10):
         ctx.case((c["kind"], "big", len(next(iter(c["frames"]))) // 2), sample=None)
         eval_case(ctx, c)
